@@ -27,6 +27,7 @@ type Prog struct {
 	loadErrs []string
 	wsets    map[*ssa.Function]*wset
 	pureFields map[string]bool // heap keys of function-valued fields declared pure
+	guarded    map[string]string // heap key of a field -> heap key of the mutex field (same object) that protects it
 	models   map[string][]*FuncContract
 }
 
@@ -83,6 +84,19 @@ func LoadProg(root string, patterns []string, tags string, cs *ContractSet) (*Pr
 			}
 			for _, f := range fd.Fields {
 				p.pureFields[short+"."+f] = true
+			}
+		}
+	}
+	p.guarded = map[string]string{}
+	for _, fd := range cs.Fields {
+		if fd.Kind == "guarded" && fd.By != "" {
+			path := pkgDirToPath(fd.Pkg)
+			short := path
+			if tp := p.TypesPkg[path]; tp != nil {
+				short = pkgShort(tp)
+			}
+			for _, f := range fd.Fields {
+				p.guarded[short+"."+f] = short + "." + fd.By
 			}
 		}
 	}
